@@ -4,8 +4,32 @@ use super::common;
 use crate::engine::{self, fp, Cfg, Ctx, EvidenceSpec, Violation};
 use crate::gen::{Policy, Step};
 use crate::refmodel::*;
-use chess::BoardStatus;
+use chess::{BoardStatus, Game, GameResult};
+use std::str::FromStr;
 use serde_json::{json, Value};
+
+/// What Game::result() must say about a game standing at a position of this status with nothing
+/// else recorded: the side to move is the one that is mated.
+fn result_for(st: Status, stm: Col) -> Option<GameResult> {
+    match st {
+        Status::Ongoing => None,
+        Status::Stalemate => Some(GameResult::Stalemate),
+        Status::Checkmate => Some(if stm == Col::W { GameResult::BlackCheckmates } else { GameResult::WhiteCheckmates }),
+    }
+}
+
+/// A game that starts at the position (through each constructor in turn).
+fn game_at(b: &chess::Board, fen: &str, sel: u64) -> Option<(Game, &'static str)> {
+    match sel % 3 {
+        0 => Some((Game::new_with_board(*b), "Game::new_with_board")),
+        1 => Game::from_str(fen).ok().map(|g| (g, "Game::from_str")),
+        _ => {
+            #[allow(deprecated)]
+            let g = Game::new_from_fen(fen);
+            g.map(|g| (g, "Game::new_from_fen"))
+        }
+    }
+}
 
 pub fn check_step(ctx: &mut Ctx, s: &Step) -> Result<(), Violation> {
     let p = s.pos;
@@ -52,6 +76,22 @@ pub fn check_step(ctx: &mut Ctx, s: &Step) -> Result<(), Violation> {
     }
     if want != Status::Ongoing {
         ctx.sample(|| s.case_with(json!({"status": format!("{:?}", want)})));
+    }
+    // the same verdict as a game reports it: a game standing at this position with nothing recorded
+    // (every terminal position, and one other position in eight)
+    if want != Status::Ongoing || fp(&(p, "game")) % 8 == 0 {
+        if let Some((g, how)) = game_at(b, &p.fen(), fp(&(p, "ctor"))) {
+            ctx.evals_add(1);
+            ctx.class("result:game-standing-at-the-position");
+            let gw = result_for(want, p.stm);
+            if g.result() != gw {
+                ctx.fail(
+                    &format!("result:{:?}-reported-as-{:?}", gw, g.result()),
+                    format!("{}(..).result() = {:?} for a position whose status is {:?} ({:?} to move)", how, g.result(), want, p.stm),
+                    s.case_with(json!({"game_constructor": how})),
+                )?;
+            }
+        }
     }
     // positions obtained from this one by a null move (and back) or through the deprecated editing
     // API are positions too (one position in four)
@@ -117,6 +157,23 @@ pub fn check_step(ctx: &mut Ctx, s: &Step) -> Result<(), Violation> {
             )?;
         }
         if nwant != Status::Ongoing {
+            // the game that ends with this move
+            if let Some((mut g, how)) = game_at(b, &p.fen(), fp(&(p, m, "ctor"))) {
+                if g.result().is_none() && g.make_move(crate::bridge::mv(m)) {
+                    ctx.evals_add(1);
+                    ctx.class("result:game-ended-by-the-move");
+                    let gw = result_for(nwant, np.stm);
+                    if g.result() != gw {
+                        ctx.fail(
+                            &format!("result:{:?}-reported-as-{:?}", gw, g.result()),
+                            format!("{}(..) then make_move({}): result() = {:?}, the position reached is {:?} ({:?} to move)", how, m.uci(), g.result(), nwant, np.stm),
+                            s.case_with(json!({"then": m.uci(), "game_constructor": how})),
+                        )?;
+                    }
+                } else {
+                    ctx.count("game_refused_legal_move(C10's business)", 1);
+                }
+            }
             ctx.class(if nwant == Status::Checkmate { "successor:checkmate" } else { "successor:stalemate" });
             ctx.nontrivial(fp(&np));
             if p.is_ep_capture(m) {
@@ -270,7 +327,7 @@ pub fn run(cfg: &Cfg) -> i32 {
     engine::finish(
         report,
         EvidenceSpec {
-            rule: "cases = positions: complete enumeration of K+X v K (X in Q,R,B,N,P; either colour; either side to move), six four-man classes (KQvKR, KRvKR, KBNvK, KPvKP, KQvKP, KNNvK: every 97th placement in quick, all in thorough), curated mates/stalemates and their neighbours, planted positions in which an en-passant capture lands diagonally next to the enemy king amid crowded pieces, planted low-mobility positions (king boxed in by enemy attacks plus one movable feature: an en-passant capture that is free / pinned along the capture diagonal / pinned off it / in the rank pattern / the only evasion of the pushed pawn's check, a seventh-rank pawn, a pinned piece, or nothing), and every position of long generated histories (capture-seeking, special-move-seeking and uniform policies, up to 120 plies). at every position the status of every successor reached through make_move_new and through the in-place make_move is judged as well (one ply of look-ahead). evaluations = positions + successors. Non-trivial = terminal position, or in check with exactly one legal reply; distinct = position fingerprints.".into(),
+            rule: "cases = positions: complete enumeration of K+X v K (X in Q,R,B,N,P; either colour; either side to move), six four-man classes (KQvKR, KRvKR, KBNvK, KPvKP, KQvKP, KNNvK: every 97th placement in quick, all in thorough), curated mates/stalemates and their neighbours, planted positions in which an en-passant capture lands diagonally next to the enemy king amid crowded pieces, planted low-mobility positions (king boxed in by enemy attacks plus one movable feature: an en-passant capture that is free / pinned along the capture diagonal / pinned off it / in the rank pattern / the only evasion of the pushed pawn's check, a seventh-rank pawn, a pinned piece, or nothing), and every position of long generated histories (capture-seeking, special-move-seeking and uniform policies, up to 120 plies). at every position the status of every successor reached through make_move_new and through the in-place make_move is judged as well (one ply of look-ahead). evaluations = positions + successors. Non-trivial = terminal position, or in check with exactly one legal reply; distinct = position fingerprints. Game::result() is asked too: of a game standing at every terminal position and at one other position in eight - built through each Game constructor in turn - and of the game that ends with each mating or stalemating move.".into(),
             assumptions: vec!["reference in_check and legal_moves".into()],
             trusted_base: vec!["harness/src/refmodel.rs".into(), "proptest 1.11".into()],
             exhaustive: None,
